@@ -41,6 +41,39 @@ COMPONENTS = {
 
 
 
+def _nothing_to_mark(prog, f: Func, cfg, marks) -> list:
+    """branch outcomes under which the value a mark would add does not exist (`if callee_name is not None: seen.add(callee_name)`: the F outcome)"""
+    out = []
+    fl = flow_of(prog, f)
+    for mk in marks:
+        v = mk.args[0]
+        if not isinstance(v, ast.Name):
+            continue
+        try:
+            vd = set(fl.defs_of_use(v))
+        except Exception:
+            continue
+        for b in cfg.nodes:
+            if b.kind != "branch" or b.ast is None or not isinstance(b.ast, ast.expr):
+                continue
+            t, lab = b.ast, b.label
+            while isinstance(t, ast.UnaryOp) and isinstance(t.op, ast.Not):
+                t, lab = t.operand, ("F" if lab == "T" else "T")
+            nm = None
+            if isinstance(t, ast.Name) and lab == "F":
+                nm = t
+            elif isinstance(t, ast.Compare) and len(t.ops) == 1 and isinstance(t.left, ast.Name) and isinstance(t.comparators[0], ast.Constant) and t.comparators[0].value is None:
+                if (isinstance(t.ops[0], ast.Is) and lab == "T") or (isinstance(t.ops[0], ast.IsNot) and lab == "F"):
+                    nm = t.left
+            if nm is not None and nm.id == v.id:
+                try:
+                    if set(fl.defs_of_use(nm)) == vd:
+                        out.append(b)
+                except Exception:
+                    pass
+    return out
+
+
 def sources_dedented(ctx: Ctx, rule: str) -> int:
     """every `ast.parse(<text>)` of the analysis whose text comes from inspect.getsource (directly, or through a package function that returns it) goes
     through textwrap.dedent / inspect.cleandoc on the way"""
@@ -482,9 +515,24 @@ def run(ctx: Ctx) -> None:
                 and x.func.value.attr in seen_sets and x.args:
             # derived from the arguments of the call: mentions node.args directly, or calls a method of the visitor that reads them
             srcs = [x.args[0]]
-            for y in ast.walk(x.args[0]):
-                if isinstance(y, ast.Call) and isinstance(y.func, ast.Attribute) and isinstance(y.func.value, ast.Name) and y.func.value.id == "self" and y.func.attr in vis18.methods:
-                    srcs.append(vis18.methods[y.func.attr].node)
+            # (through a local: `callee_name = self._dds_callee_name(node)`, `if callee_name is not None: self._store_names.add(callee_name)`)
+            work18 = [x.args[0]]
+            for _lvl in range(4):
+                nxt18 = []
+                for w_ in work18:
+                    for y in ast.walk(w_):
+                        if isinstance(y, ast.Name) and isinstance(y.ctx, ast.Load):
+                            try:
+                                nxt18 += [d_.value for d_ in flow_of(prog, vc18).defs_of_use(y) if d_.value is not None and getattr(d_, "kind", "assign") == "assign"
+                                          and not any(d_.value is z for z in srcs)]
+                            except Exception:
+                                pass
+                srcs += nxt18
+                work18 = nxt18
+            for s0 in list(srcs):
+                for y in ast.walk(s0):
+                    if isinstance(y, ast.Call) and isinstance(y.func, ast.Attribute) and isinstance(y.func.value, ast.Name) and y.func.value.id == "self" and y.func.attr in vis18.methods:
+                        srcs.append(vis18.methods[y.func.attr].node)
             if any(isinstance(z, ast.Attribute) and z.attr == "args" for s_ in srcs for z in ast.walk(s_)):
                 marks.append(x)
     gv18 = [x for x in vc18.own_nodes() if isinstance(x, ast.Call) and isinstance(x.func, ast.Attribute) and x.func.attr == "generic_visit"]
@@ -492,7 +540,7 @@ def run(ctx: Ctx) -> None:
     c18 = cfg_of(vc18)
     if not gv18:
         rep.unknown("C01.R18", vc18.qname, "visit_Call does not visit the sub-expressions of the call", vc18.loc())
-    elif marks and all(dominated(ctx, vc18, g_, [d for mk in marks for d in done_nodes(c18, mk)]) is None for g_ in gv18):
+    elif marks and all(dominated(ctx, vc18, g_, [d for mk in marks for d in done_nodes(c18, mk)] + _nothing_to_mark(prog, vc18, c18, marks)) is None for g_ in gv18):
         rep.ok("C01.R18", vc18.qname, desc18, vc18.loc(marks[0]))
     else:
         rep.bad("C01.R18", vc18.qname, desc18, vc18.loc(gv18[0]), [f"{vc18.loc(gv18[0])}: `{unparse(gv18[0], 40)}` visits the arguments; no statement before it adds the function argument of the call to "
